@@ -566,6 +566,15 @@ func (c *connection) flush() error {
 	if c.outputBuffer.IsEmpty() {
 		return nil
 	}
+	// When an earlier flush gave up (write timeout) while the poller was finishing it, the poller's
+	// completion signal is still in the channel: it must not end this wait.
+	select {
+	case err = <-c.writeTrigger:
+		if err != nil { // not a completion signal: the connection was closed
+			return err
+		}
+	default:
+	}
 	err = c.operator.Control(PollR2RW)
 	if err != nil {
 		return Exception(err, "when flush")
